@@ -50,7 +50,9 @@ def spectral_norm(X_data, X_indptr, X_indices, n_samples,
 
         # norm(X @ X.T @ eigenvector - eigenvalue * eigenvector) <= tol
         # inequality (5.25) in ref [1] is squared
-        if norm_vec ** 2 - eigenvalue ** 2 <= tol ** 2:
+        # use a relative tolerance for matrices of small norm, otherwise the very
+        # first iterate passes the test and the norm is underestimated
+        if norm_vec ** 2 - eigenvalue ** 2 <= (tol * min(1., eigenvalue)) ** 2:
             break
 
         eigenvector = vec / norm_vec
